@@ -1,6 +1,6 @@
 SPECIFICATION Spec
 CONSTANTS
-  Facets = {"modules", "threads", "memory", "directory", "names", "misc"}
+  Facets = {"modules", "threads", "memory", "directory", "names", "misc", "crashpad", "sysinfo"}
   MaxDir = 4
 INVARIANTS TypeOK ServedIsLast ServedMonotone Emit
 CHECK_DEADLOCK FALSE
